@@ -206,13 +206,14 @@ type Case struct {
 	Rng  *rand.Rand
 	Log  *EventLog
 	Data map[string]any // generated case description, written into the replay file
+	T0   time.Time      // when the case was created
 	mu   sync.Mutex
 	vios int
 }
 
 // NewCase builds the case with index i.
 func (r *Run) NewCase(i int) *Case {
-	return &Case{R: r, Idx: i, Rng: r.RandFor("case", i), Log: NewEventLog(), Data: map[string]any{}}
+	return &Case{R: r, Idx: i, Rng: r.RandFor("case", i), Log: NewEventLog(), Data: map[string]any{}, T0: time.Now()}
 }
 
 // Violations returns how many (unlisted) violations this case reported.
@@ -240,6 +241,16 @@ func (r *Run) Violation(key string, format string, args ...any) {
 var printMu sync.Mutex
 
 func (r *Run) reportViolation(c *Case, key, what string, detail any) bool {
+	// a finding of a case that lived through a suspension of the whole process is not judged (see freeze.go)
+	since := time.Now().Add(-freezeGrace - 30*time.Second)
+	if c != nil && !c.T0.IsZero() {
+		since = c.T0.Add(-freezeGrace)
+	}
+	if d, n := FrozenSince(since); n > 0 {
+		r.Inconclusive("process or machine was suspended during the case (timer gap >= 3 s): finding not judged")
+		fmt.Fprintf(os.Stderr, "not judged (process suspended for %v in %d gap(s) during the case): %s %s\n", d.Round(time.Millisecond), n, key, what)
+		return false
+	}
 	r.mu.Lock()
 	if txt, ok := r.known[key]; ok {
 		r.knownHit[key]++
